@@ -229,21 +229,8 @@ func (c *IPPoolController) reconcileConditions(ctx context.Context) ([]*v3.IPPoo
 			t = triev6
 		}
 
-		// If the pool is administratively disabled, reflect that in its conditions and skip it for the purposes of
-		// determining overlaps, since an administratively disabled pool should not block other pools from being active.
-		if pool.Spec.Disabled {
-			cond := metav1.Condition{
-				Type:    v3.IPPoolConditionAllocatable,
-				Status:  metav1.ConditionFalse,
-				Reason:  v3.IPPoolReasonDisabled,
-				Message: "IPPool.Spec.Disabled is true",
-			}
-			if err := updateCondition(ctx, c.cli, pool, cond); err != nil {
-				logrus.WithError(err).WithField("pool", pool.Name).Error("Failed to update status of IPPool")
-				errs = append(errs, err)
-			}
-			continue
-		}
+		// Check for deletion first: a terminating pool keeps masking overlapping pools until it is fully deleted,
+		// even if it has also been administratively disabled.
 		if pool.DeletionTimestamp != nil {
 			cond := metav1.Condition{
 				Type:    v3.IPPoolConditionAllocatable,
@@ -262,6 +249,21 @@ func (c *IPPoolController) reconcileConditions(ctx context.Context) ([]*v3.IPPoo
 			continue
 		}
 
+		// If the pool is administratively disabled, reflect that in its conditions and skip it for the purposes of
+		// determining overlaps, since an administratively disabled pool should not block other pools from being active.
+		if pool.Spec.Disabled {
+			cond := metav1.Condition{
+				Type:    v3.IPPoolConditionAllocatable,
+				Status:  metav1.ConditionFalse,
+				Reason:  v3.IPPoolReasonDisabled,
+				Message: "IPPool.Spec.Disabled is true",
+			}
+			if err := updateCondition(ctx, c.cli, pool, cond); err != nil {
+				logrus.WithError(err).WithField("pool", pool.Name).Error("Failed to update status of IPPool")
+				errs = append(errs, err)
+			}
+			continue
+		}
 		// Check if this pool is overlapped by any existing active pool in the trie.
 		if e := t.Get(cidr); e != nil || t.Intersects(cidr) || t.Covers(cidr) {
 			// This pool overlaps with an existing active pool, so we should disable it.
